@@ -22,7 +22,7 @@ COMPONENTS = {
     'reference': ['sim/ref_chunker.py'],
 }
 ASSUMPTIONS = ['the glue replaces the pybind11 argument conversion; 20k random next_cut calls agree with the pre-built extension (selftest)']
-PROBES = ['unaligned_max', 'min_eq_max', 'max_lt_8', 'empty_pieces', 'one_byte_pieces', 'piece_eq_max', 'tail_rule_half', 'stream_gt_2max']
+PROBES = ['unaligned_max', 'min_eq_max', 'max_lt_8', 'empty_pieces', 'one_byte_pieces', 'piece_eq_max', 'tail_rule_half', 'stream_gt_2max', 'earlier_call_other_key']
 TIERS = {'quick': {'budget_s': 45, 'batch': 50}, 'thorough': {'budget_s': 600, 'batch': 100}}
 KNOWN_UNALIGNED_FRACTION = 0.2     # unaligned maxima (once a known finding, fixed since) stay well represented
 
@@ -190,6 +190,21 @@ def run_case(case):
         try:
             for mode, other in (('zeros', None), ('ones', noise()), ('seeded', None), ('zeros', noise()), ('zeros', same_instance_noise())):
                 runs.append(cut(adapter, data, seg, key, _Tail(mode, case['tail_seed']), other))
+            # earlier calls on the same adapter object under ANOTHER key: as an immutable value, and through a key
+            # buffer that the caller afterwards fills with this run's key (same object, changed in place)
+            okey = bytes(b ^ 0x5A for b in key)
+            if int.from_bytes(okey[:8], 'little') == 0:
+                okey = b'\x01' + okey[1:]
+            blob = substream(case['tail_seed'], 'other-key').randbytes(3 * mx + 5)
+            for _ in adapter(iter([blob, blob[:5]]), params=okey):
+                pass
+            runs.append(cut(adapter, data, seg, key, _Tail('zeros', case['tail_seed'])))
+            kbuf = bytearray(okey)
+            for _ in adapter(iter([blob, blob[:5]]), params=kbuf):
+                pass
+            kbuf[:] = key
+            runs.append(cut(adapter, data, seg, kbuf, _Tail('zeros', case['tail_seed'])))
+            probes['earlier_call_other_key'] = 1
         except install.ChunkerNoProgress as e:
             viol.append({'cls': 'no-progress', 'sig': sig, 'msg': f'min={mn} max={mx} len={len(data)} seg={seg[:12]}: chunker does not terminate ({e})'})
             break
@@ -206,7 +221,7 @@ def run_case(case):
             i = next(i for i, r in enumerate(runs) if r != chunks)
             viol.append({'cls': 'depends-on-adjacent-memory-or-earlier-calls', 'sig': sig,
                          'msg': f'min={mn} max={mx} len={len(data)} seg={seg[:12]}: chunk sizes {list(map(len, chunks))[:10]} with zero bytes after the buffer, '
-                                f'{list(map(len, runs[i]))[:10]} with {["zeros", "0xFF", "seeded", "zeros+interleaved", "zeros+a second stream on the same adapter object"][i]}'})
+                                f'{list(map(len, runs[i]))[:10]} with {["zeros", "0xFF", "seeded", "zeros+interleaved", "zeros+a second stream on the same adapter object", "zeros, after a call with another key on the same adapter object", "zeros, after a call with another key held in the same (mutable) key buffer"][i]}'})
             break
         pos = 0
         bad = None
